@@ -624,6 +624,8 @@ def run(chk):
         X = float_sample(N, d)
         m = int(rng.integers(1, 4))
         for j in range(m):                      # m clusters of k+1 points within 1e-10 .. 1e-6 of each other
+            if j * (k + 1) >= N:
+                break
             base_pt = X[j * (k + 1)]
             for q in range(1, k + 1):
                 if j * (k + 1) + q < N:
